@@ -833,9 +833,9 @@ def driver_runs(tier, seed):
             strs = token_strings(G, rng, tier)
             recs.append({"label": label, "items": items, "text": text, "G": G, "emitted": emitted, "tenum": tenum, "strings": strs})
         # zero-terminal grammars do not compile (known finding of C05); they get no compiled run.  Neither do modules
-        # of more than 1 MB (hundreds of terminals × hundreds of states: minutes of rustc each); their tables are
-        # compared in C04/C17 and validated by validB all the same.
-        comp = [r for r in recs if r["G"]["terminals"] and len(r["emitted"]) <= 1_000_000]
+        # of more than 250 kB (hundreds of terminals × hundreds of states: many minutes of rustc each); their tables
+        # are compared in C04/C17 and validated by validB all the same.
+        comp = [r for r in recs if r["G"]["terminals"] and len(r["emitted"]) <= 250_000]
         grammars = []
         for r in comp:
             idx = {t: i for i, t in enumerate(r["G"]["terminals"])}
